@@ -142,6 +142,10 @@ impl<T> Context<T> for core::result::Result<T, IoError> {
     #[verifier::external_body]
     fn with_context<C, F: FnOnce() -> C>(self, f: F) -> (r: Result<T>) { unimplemented!() }
 }
+/// C14: the file was read during this run and what was read equals its formatted form (or is erroneous, which counts as unchanged)
+pub open spec fn file_is_formatted(p: &Path) -> bool {
+    exists|c: Seq<char>| #[trigger] file_content(p, c) && input_of_run(c) && !(fmt_s(c, the_cfg()) matches Some(f) && f != c)
+}
 #[verifier::external_body] pub fn vp_anyhow() -> AnyhowError { unimplemented!() }
 #[verifier::external_body] pub fn vp_format() -> String { unimplemented!() }
 /// logging is not modelled (rule R5)
